@@ -180,7 +180,12 @@ fn c03_collect(s: &In, at_end: bool, found: &mut Vec<Violation>) {
         }
         if let Some(h) = mine.first() {
             let props_ok = ver == Ver::V3 || props.is_empty() == h.props.is_empty() || !props.is_empty();
-            if h.topic != *topic || h.dup != *dup || h.retain != *retain || h.size != payload.len() || !props_ok {
+            // (a publish that carries a Topic Alias is judged against the resolved topic by the C17 monitor, which the
+            // alias configurations of C03 run as well)
+            let aliased = props.iter().any(|(id, _)| *id == 0x23);
+            // (behind the client's router the harness prefixes the topic with the resource that was chosen: "A:a")
+            let seen = if s.cfg.ep.router { h.topic.split_once(':').map(|x| x.1).unwrap_or(&h.topic) } else { &h.topic };
+            if (!aliased && seen != topic.as_str()) || h.dup != *dup || h.retain != *retain || h.size != payload.len() || !props_ok {
                 found.push(viol(s, "fields", format!("q{qos}"), format!("handler saw topic={} dup={} retain={} size={} for sent {:?}", h.topic, h.dup, h.retain, h.size, snt.pkt.as_ref().unwrap().short())));
             }
             if (h.exit.is_some() || at_end) && h.payload_err.is_none() && s.cfg.ep.read_mode == ReadMode::All && snt.complete_step.is_some() && h.payload != *payload && h.exit.is_some() {
